@@ -22,6 +22,7 @@ OPS = catalog.OPS
 
 import os as _os
 SURVEY = bool(_os.environ.get('VERIF_SURVEY'))
+ONLY = _os.environ.get('VERIF_ONLY')
 FAULT_KINDS = ['poison', 'abandon', 'interleave', 'rng', 'dbrefresh', 'scribble', 'reuse']
 
 
@@ -382,7 +383,10 @@ class _Run:
     def violation(self, invariant, op, detail, message, ev_i, snaps=None, extra=None):
         v = Violation(ID, invariant, op, detail, message, ev_i, extra).to_json()
         k = KNOWN.match(v)
-        if k is None and SURVEY:
+        if k is None and ONLY and '/'.join((invariant, op, detail)) == ONLY:
+            self.out.violation = v
+            return True
+        if k is None and (SURVEY or ONLY):
             k = {'id': 'SURVEY ' + '/'.join(str(x) for x in (invariant, op, detail)) + ' :: ' + message[:260]}
         if k is not None:
             self.out.known[k['id']] += 1
@@ -625,6 +629,16 @@ def _do_call(run, ev_i, ev, touched):
     exempt = [ev['args'][an]['h'] for an in o.exempt if an in ev['args'] and 'h' in ev['args'][an]]
     if run.check_pool(snaps, 'ARG', ev['op'], ev_i, exempt):
         return True
+    if exempt:
+        # an explicit editor changed a shared object (legitimately): suspended computations and cached objects
+        # bound to it may or may not see the edit - the property says nothing, so stop comparing them
+        out.probes['explicit_editor_event'] += 1
+        for lz in run.lazies.values():
+            if any(a.get('h') in exempt for a in lz['ev']['args'].values()):
+                lz['twin_items'] = None
+        for rh in [rh for rh, r in run.results.items()
+                   if any(a.get('h') in exempt for a in r['ev']['args'].values())]:
+            del run.results[rh]
     # ---- HIST
     if o.lazy and s_ok:
         run.lazies[ev['out']] = {'gen': s_res, 'twin_ok': t_ok, 'twin_items': t_res if t_ok else None, 'k': 0,
@@ -739,6 +753,7 @@ def _do_scribble(run, ev_i, ev):
     if how is None:
         return False
     out.faults['scribble'] += 1
+    del run.results[ev['res']]    # the client edited its own result: it no longer equals a re-computation
     if how.endswith('/aimed'):
         out.probes['scribble_on_node_shared_with_argument'] += 1
     return run.check_pool(snaps, 'ALIAS', r['op'], ev_i)
